@@ -38,8 +38,15 @@ public final class ChecksumServiceFactory {
 
     @SuppressWarnings("unchecked")
     public <B, T> ChecksumService<B, T> getChecksumService(String name) {
-        return (ChecksumService<B, T>) services.get(name);
+        return disabled.contains(name) ? null : (ChecksumService<B, T>) services.get(name);
     }
+
+    private final java.util.Set<String> disabled = new java.util.HashSet<>();
+
+    /** The application removes the service registered under name / puts it back (driver commands UNREG / REG). */
+    public void remove(String name) { disabled.add(name); }
+
+    public void restore(String name) { disabled.remove(name); }
 
     /** The raw 64-bit value before reduction to the width. */
     public static long weightedSum(ByteBuf buf) {
